@@ -49,10 +49,36 @@ def axisRefsM (d : Doc) (ax : String) (o : Ref) : List Ref :=
   | "self" => [o]
   | _ => []
 
-/-- the documented NoFnvCollision assumption: the identity hash is injective on the nodes of `d` -/
+/-- the key union and ancestor de-duplicate with is injective on the nodes of `d`.  (Formerly the
+documented NoFnvCollision ASSUMPTION — the key was a 64-bit hash; since the repair of `getNodeKey` the
+engine compares the key strings and this is a THEOREM: `hashInj_holds`.) -/
 def HashInj (d : Doc) (cfg : ECfg) : Prop :=
   ∀ a b, validRef d a = true → validRef d b = true →
     identityHash d cfg a = identityHash d cfg b → a = b
+
+/-- **`HashInj` holds**: on a well-formed document in which no element has two attributes with the same
+prefix, local name and value (XML well-formedness gives more: no two attributes with the same qualified
+name), two valid nodes with the same node key are the same node.  No assumption on names (empty or
+not), none on the configuration. -/
+theorem hashInj_holds {d : Doc} (wf : WF d) (hattr : AttrTriplesDistinct d) (cfg : ECfg) :
+    HashInj d cfg :=
+  fun a b ha hb h => identityKey_inj wf hattr cfg a b ha hb h
+
+/-- the same from the XML well-formedness constraint "attribute names are unique" -/
+theorem hashInj_of_attrNames {d : Doc} (wf : WF d) (hattr : AttrNamesDistinct d) (cfg : ECfg) :
+    HashInj d cfg := hashInj_holds wf hattr.triples cfg
+
+/-- the side condition of `hashInj_holds` is necessary: `HashInj` implies it (two attributes of one
+element with the same prefix, name and value have the same key) -/
+theorem attrTriples_of_hashInj {d : Doc} {cfg : ECfg} (h : HashInj d cfg) : AttrTriplesDistinct d := by
+  intro i k₁ k₂ hi h₁ h₂ e₁ e₂ e₃
+  have := h (.attr i k₁) (.attr i k₂) (by simp [validRef, hi, h₁]) (by simp [validRef, hi, h₂])
+    (identityKey_attr_collide d cfg i k₁ k₂ e₁ e₂ e₃)
+  injection this
+
+/-- on a well-formed document, `HashInj` is exactly `AttrTriplesDistinct` -/
+theorem hashInj_iff {d : Doc} (wf : WF d) (cfg : ECfg) : HashInj d cfg ↔ AttrTriplesDistinct d :=
+  ⟨attrTriples_of_hashInj, fun h => hashInj_holds wf h cfg⟩
 
 /-- the refs of a list of items -/
 abbrev refs (l : List Item) : List Ref := l.map (·.r)
